@@ -6,6 +6,7 @@
 #include <string_view>
 #include <optional>
 #include <unordered_map>
+#include <algorithm>
 
 namespace sqf::runtime
 {
@@ -54,14 +55,23 @@ namespace sqf::runtime
             iterator find(std::string index) { return m_children.find(index); }
             void push_back(std::string key, size_t target_id)
             {
+                // Deleted entries (invalid_id) are only kept in the map, where they hide
+                // the inherited entry; the ordered list holds existing entries only.
                 auto res = m_children.find(key);
-                if (res == m_children.end())
+                if (res == m_children.end() || res->second == invalid_id)
                 {
-                    m_children_vec.push_back(target_id);
+                    if (target_id != invalid_id)
+                    {
+                        m_children_vec.push_back(target_id);
+                    }
                 }
                 else if (res->second == target_id)
                 {
                     return;
+                }
+                else if (target_id == invalid_id)
+                {
+                    m_children_vec.erase(std::remove(m_children_vec.begin(), m_children_vec.end(), res->second), m_children_vec.end());
                 }
                 else
                 {
